@@ -14,8 +14,11 @@ import time
 from concurrent.futures import ThreadPoolExecutor
 
 VERIF = os.path.dirname(os.path.dirname(os.path.abspath(__file__)))
+# The registered commands always run against /repo with /verif/work as scratch. O2O_REPO / VERIF_WORK / VERIF_OUT exist only
+# for tools/eval_seeded.sh, which evaluates seeded changes on scratch copies of the repository in parallel.
 REPO = os.environ.get("O2O_REPO", "/repo")
-WORK = os.path.join(VERIF, "work")
+WORK = os.environ.get("VERIF_WORK", os.path.join(VERIF, "work"))
+OUT = os.environ.get("VERIF_OUT", VERIF)     # where evidence/ and replays/ are written
 NCPU = max(2, min(16, os.cpu_count() or 4))
 ENV = dict(os.environ, CARGO_NET_OFFLINE="true", CARGO_TERM_COLOR="never")
 
@@ -47,7 +50,7 @@ def repo_hash():
         for root, _, files in sorted(os.walk(d)):
             for f in sorted(files):
                 p = os.path.join(root, f)
-                h.update(p.encode())
+                h.update(os.path.relpath(p, REPO).encode())
                 with open(p, "rb") as fh:
                     h.update(fh.read())
     for f in ("Cargo.toml", "o2o-impl/Cargo.toml", "o2o-macros/Cargo.toml", "Cargo.lock"):
@@ -100,12 +103,30 @@ def cargo_build(crate_dir, target_dir, extra=(), toolchain=None, pkgs_to_clean=(
 _BUILT = {}
 
 
+def harness_dir(name):
+    """harness crates name /repo in their path dependency; for a scratch repository use a copy with the path rewritten"""
+    src = os.path.join(VERIF, "harness", name)
+    if REPO == "/repo":
+        return src
+    import shutil
+    dst = os.path.join(WORK, "harness-" + name)
+    if not os.path.exists(dst):
+        shutil.copytree(src, dst, ignore=shutil.ignore_patterns("target", "artifacts", "corpus"))
+        for root, _, files in os.walk(dst):
+            for f in files:
+                if f == "Cargo.toml":
+                    fp = os.path.join(root, f)
+                    t = open(fp).read().replace('"/repo/', '"' + REPO + '/')
+                    open(fp, "w").write(t)
+    return dst
+
+
 def xdrv_bin(backend):
     """Path of the level-X driver for backend 's1' or 's2' (built on demand from /repo)."""
     if backend in _BUILT:
         return _BUILT[backend]
     tgt = os.path.join(WORK, f"tgt-{backend}")
-    ok, out = cargo_build(os.path.join(VERIF, "harness/xdrv"), tgt, extra=["--features", backend])
+    ok, out = cargo_build(harness_dir("xdrv"), tgt, extra=["--features", backend])
     if not ok:
         # /repo does not compile in this configuration: that is not a verdict on the property.
         raise Inconclusive(f"xdrv[{backend}] failed to build against /repo:\n{out[-3000:]}")
@@ -119,7 +140,7 @@ def xan_bin():
         return _BUILT["xan"]
     tgt = os.path.join(WORK, "tgt-xan")
     b = os.path.join(tgt, "release/xan")
-    ok, out = cargo_build(os.path.join(VERIF, "harness/xan"), tgt, pkgs_to_clean=())
+    ok, out = cargo_build(harness_dir("xan"), tgt, pkgs_to_clean=())
     if not ok:
         raise Inconclusive(f"xan failed to build:\n{out[-3000:]}")
     _BUILT["xan"] = b
@@ -412,7 +433,7 @@ class Check:
         self.assumptions = []
         self.floor = 2
         import glob
-        for old in glob.glob(os.path.join(VERIF, "replays", f"{prop}-{tier}-*.json")):
+        for old in glob.glob(os.path.join(OUT, "replays", f"{prop}-{tier}-*.json")):
             try:
                 os.unlink(old)
             except OSError:
@@ -449,15 +470,15 @@ class Check:
 
     def finish(self):
         wall = time.time() - self.t0
-        os.makedirs(os.path.join(VERIF, "evidence"), exist_ok=True)
-        os.makedirs(os.path.join(VERIF, "replays"), exist_ok=True)
+        os.makedirs(os.path.join(OUT, "evidence"), exist_ok=True)
+        os.makedirs(os.path.join(OUT, "replays"), exist_ok=True)
         replay_paths = []
         seen_sig = set()
         for i, (sig, w) in enumerate(self.violations):
             if w is None or sig in seen_sig:
                 continue
             seen_sig.add(sig)
-            p = os.path.join(VERIF, "replays", f"{self.prop}-{self.tier}-{self.seed}-{len(replay_paths)}.json")
+            p = os.path.join(OUT, "replays", f"{self.prop}-{self.tier}-{self.seed}-{len(replay_paths)}.json")
             with open(p, "w") as fh:
                 json.dump({"property": self.prop, "tier": self.tier, "seed": self.seed, "signature": sig, "witness": w,
                            "replay": f"./run --replay {p}"}, fh, indent=1, default=str)
@@ -477,7 +498,7 @@ class Check:
         ev = {"property_id": self.prop, "tier": self.tier, "seed": self.seed, "level": self.level, "coverage": cov,
               "assumptions": self.assumptions, "wall_s": round(wall, 2), "violations": len(self.violations)}
         floors_met = self.evaluations >= 1 and len(self.nontrivial) >= self.floor
-        with open(os.path.join(VERIF, "evidence", f"{self.prop}.json"), "w") as fh:
+        with open(os.path.join(OUT, "evidence", f"{self.prop}.json"), "w") as fh:
             json.dump(ev, fh, indent=1, default=str)
         for f in self.findings:
             n = self.known_hits.get(f.fid, 0)
